@@ -19,6 +19,7 @@ import (
 	"bufio"
 	"context"
 	"fmt"
+	"runtime"
 	"strings"
 	"time"
 
@@ -30,11 +31,15 @@ import (
 )
 
 type scriptItem struct {
-	Api  string  `json:"api"`
-	Src  string  `json:"src"`
-	Eff  string  `json:"eff"`
-	Fn   string  `json:"fn"`
-	Args []int64 `json:"args"`
+	Api    string  `json:"api"` // RN: Run of a piece; CL: Call of a global function; CH: Call of a function the host kept
+	Src    string  `json:"src"`
+	Eff    string  `json:"eff"`
+	Fn     string  `json:"fn"`
+	Args   []int64 `json:"args"`
+	Hold   string  `json:"hold"`   // CL: the host keeps the result under this name (the reference declares a global of that name)
+	Reg    string  `json:"reg"`    // CH: which kept function to call
+	Cancel string  `json:"cancel"` // when the host cancels this invocation's context: "after" it returned (default), at the "end"
+	// of the history, or when a later piece calls cancel_ctx(i) ("script"; at the end if none does)
 }
 
 type scriptHistory struct {
@@ -48,6 +53,36 @@ type scriptWorld struct {
 	cfg     *risor.Config
 	repl    *compiler.Compiler
 	machine *vm.VirtualMachine
+	cancels map[int]context.CancelFunc // shared VM only: contexts of earlier invocations that are still live
+	held    map[string]*object.Function
+}
+
+// the configuration of a world: cancel_ctx(i) cancels the context of invocation i of the shared VM's history; on a
+// reference VM (everything earlier ran under its one context) it does nothing
+func (w *scriptWorld) config() *risor.Config {
+	return risor.NewConfig(risor.WithConcurrency(), risor.WithGlobal("cancel_ctx",
+		object.NewBuiltin("cancel_ctx", func(ctx context.Context, args ...object.Object) object.Object {
+			if len(args) == 1 {
+				if i, ok := args[0].(*object.Int); ok {
+					if c, found := w.cancels[int(i.Value())]; found {
+						c()
+						delete(w.cancels, int(i.Value()))
+						// let the goroutines that watch that context run
+						for k := 0; k < 20; k++ {
+							runtime.Gosched()
+						}
+						time.Sleep(200 * time.Microsecond)
+					}
+				}
+			}
+			return object.Nil
+		})))
+}
+
+func newScriptWorld() *scriptWorld {
+	w := &scriptWorld{cancels: map[int]context.CancelFunc{}, held: map[string]*object.Function{}}
+	w.cfg = w.config()
+	return w
 }
 
 func clean(s string) string {
@@ -58,8 +93,12 @@ func scriptClass(v object.Object, err error) string {
 	if err != nil {
 		m := err.Error()
 		switch {
-		case strings.Contains(m, "context deadline") || strings.Contains(m, "context canceled"):
+		case strings.Contains(m, "context deadline"):
+			// the harness's own wall-clock bound; "context canceled" on the other hand can only come from the context of
+			// an EARLIER invocation (the harness cancels a context only after its invocation returned): an observation
 			return "TIMEOUT"
+		case strings.Contains(m, "context canceled"):
+			return "E stale-context-canceled(" + clean(m) + ")"
 		case strings.HasPrefix(m, "panic: runtime error: index out of range"):
 			return "E bounds"
 		case strings.HasPrefix(m, "panic:"):
@@ -116,7 +155,7 @@ func (w *scriptWorld) run(ctx context.Context, src string) (v object.Object, err
 	return object.Nil, nil
 }
 
-func (w *scriptWorld) call(ctx context.Context, name string, ints []int64) (v object.Object, err error) {
+func (w *scriptWorld) call(ctx context.Context, name string, ints []int64, heldFn *object.Function) (v object.Object, err error) {
 	defer func() {
 		if r := recover(); r != nil {
 			err = fmt.Errorf("GOPANIC %v", r)
@@ -125,13 +164,17 @@ func (w *scriptWorld) call(ctx context.Context, name string, ints []int64) (v ob
 	if w.machine == nil {
 		return nil, fmt.Errorf("HARNESS: call on a VM that never ran")
 	}
-	fo, gerr := w.machine.Get(name)
-	if gerr != nil {
-		return nil, fmt.Errorf("HARNESS: get %s: %v", name, gerr)
-	}
-	fn, ok := fo.(*object.Function)
-	if !ok {
-		return nil, fmt.Errorf("HARNESS: %s is not a function", name)
+	fn := heldFn
+	if fn == nil {
+		fo, gerr := w.machine.Get(name)
+		if gerr != nil {
+			return nil, fmt.Errorf("HARNESS: get %s: %v", name, gerr)
+		}
+		var ok bool
+		fn, ok = fo.(*object.Function)
+		if !ok {
+			return nil, fmt.Errorf("HARNESS: %s is not a function", name)
+		}
 	}
 	args := make([]object.Object, len(ints))
 	for i, a := range ints {
@@ -164,24 +207,43 @@ func (w *scriptWorld) dump(watch []string) string {
 }
 
 func runScriptHistory(h *scriptHistory, out *bufio.Writer) {
-	cfg := risor.NewConfig(risor.WithConcurrency())
-	shared := &scriptWorld{cfg: cfg}
+	shared := newScriptWorld()
 	var parts []string
 	var effs []string
-	for _, it := range h.Items {
+	var atEnd []context.CancelFunc
+	for k, it := range h.Items {
 		ctx, cancel := context.WithTimeout(context.Background(), 5*time.Second)
 		var sv object.Object
 		var serr error
-		if it.Api == "RN" {
+		switch it.Api {
+		case "RN":
 			sv, serr = shared.run(ctx, it.Src)
-		} else {
-			sv, serr = shared.call(ctx, it.Fn, it.Args)
+		case "CL":
+			sv, serr = shared.call(ctx, it.Fn, it.Args, nil)
+			if it.Hold != "" {
+				if fn, ok := sv.(*object.Function); ok && serr == nil {
+					shared.held[it.Hold] = fn
+				}
+			}
+		case "CH":
+			if fn := shared.held[it.Reg]; fn != nil {
+				sv, serr = shared.call(ctx, "", nil, fn)
+			} else {
+				serr = fmt.Errorf("HARNESS: nothing kept as %s", it.Reg)
+			}
 		}
 		so, sg := scriptClass(sv, serr), shared.dump(h.Watch)
-		cancel()
+		switch it.Cancel {
+		case "end":
+			atEnd = append(atEnd, cancel)
+		case "script":
+			shared.cancels[k] = cancel
+		default:
+			cancel()
+		}
 
 		ctx2, cancel2 := context.WithTimeout(context.Background(), 5*time.Second)
-		fresh := &scriptWorld{cfg: cfg}
+		fresh := newScriptWorld()
 		prefix := strings.Join(effs, "\n")
 		var fv object.Object
 		var ferr error
@@ -194,8 +256,11 @@ func runScriptHistory(h *scriptHistory, out *bufio.Writer) {
 		} else {
 			if _, perr := fresh.run(ctx2, prefix+"\nnil"); perr != nil {
 				ferr = fmt.Errorf("HARNESS: the reference VM could not run the earlier items: %v", perr)
+			} else if it.Api == "CH" {
+				// in the reference program the kept function is a global of that name
+				fv, ferr = fresh.call(ctx2, it.Reg, nil, nil)
 			} else {
-				fv, ferr = fresh.call(ctx2, it.Fn, it.Args)
+				fv, ferr = fresh.call(ctx2, it.Fn, it.Args, nil)
 			}
 		}
 		fo, fg := scriptClass(fv, ferr), fresh.dump(h.Watch)
@@ -204,6 +269,12 @@ func runScriptHistory(h *scriptHistory, out *bufio.Writer) {
 		if it.Eff != "" {
 			effs = append(effs, it.Eff)
 		}
+	}
+	for _, c := range atEnd {
+		c()
+	}
+	for _, c := range shared.cancels {
+		c()
 	}
 	fmt.Fprintf(out, "%s\t%s\n", h.ID, strings.Join(parts, ";"))
 }
